@@ -39,7 +39,7 @@ def compare_twins(srcs, levels, nstates, rng):
     nprog = 0
     ninl = 0
     for O in levels:
-        comp = compile_variants(srcs, {'inl': [O], 'sub': [O], 'out': [O]})
+        comp = compile_variants(srcs, {'inl': [O], 'sub': [O], 'out': [O]}, want=('vars', 'funcs', 'tree'))
         ok = {}
         for pid, vs in comp.items():
             sts = {vn: r['status'] for vn, r in vs.items()}
@@ -63,6 +63,21 @@ def compare_twins(srcs, levels, nstates, rng):
                 vn_ = sorted(b_)[0]
                 viol.append({'pid': pid_, 'why': 'only the inlined form has a conditional branch out of range: ' + b_[vn_]['why'], 'level': O, 'variant': vn_,
                              'with_inline': srcs[pid_][vn_], 'without_inline': srcs[pid_]['out']})
+        # ... and for the linker: a JSR of an emitted function to a function that is not among the functions in use
+        for pid_, vs_ in ok.items():
+            def dangling(r_):
+                if 'inuse' not in r_:
+                    return []
+                iu = set(r_['inuse'])
+                return sorted(set(l[6] for f in r_['funcs'] if f['name'] in iu and not f.get('inline') for l in (f.get('final') or [])
+                                  if l[0] == 'I' and l[1] == 'JSR' and l[6] not in iu and not (l[6].startswith('Call') and l[6][4:] in iu)))
+            d_out = dangling(vs_['out'])
+            for vn_ in ('inl', 'sub'):
+                d_ = dangling(vs_[vn_])
+                if d_ and not d_out:
+                    viol.append({'pid': pid_, 'why': 'only the inlined form calls functions that are not emitted: %s' % d_, 'level': O, 'variant': vn_,
+                                 'with_inline': srcs[pid_][vn_], 'without_inline': srcs[pid_]['out']})
+                    break
         ce = coexec(ok, nstates, rng, layout_from='out', with_trace=True)
         for pid, m in ce.items():
             base = m['runs']['out']
@@ -167,6 +182,12 @@ def run(ctx):
         if k.startswith('L_inlret') and k.endswith('_1'):
             s_in = p_.source()
             srcs['l' + k] = {'inl': s_in, 'sub': s_in, 'out': s_in.replace('inline ', '')}
+    # functions reached only through inline functions, inlined in several callers (dead ones first)
+    for k_, s_in in (('dead_first', 'char s; void h() { s++; } inline void f() { h(); X = 1; } void helper() { f(); } void main() { f(); }'),
+                     ('two_callers', 'char s; void h() { s++; } inline void f() { h(); } void g() { f(); } void main() { g(); f(); }'),
+                     ('nested', 'char s; void h() { s++; } inline void f() { h(); } inline void o() { f(); s--; } void d1() { o(); } void main() { o(); o(); }'),
+                     ('only_inline', 'unsigned char x; void tick() { x++; } inline void step() { tick(); } void main() { step(); }')):
+        srcs['link_' + k_] = {'inl': s_in, 'sub': s_in, 'out': s_in.replace('inline ', '')}
     # nested inlining, each level expanded several times
     for i in range(60 if quick else 1500):
         s = nested_inline_program(rng)
